@@ -1,7 +1,7 @@
 #!/bin/bash
 # Run every check's quick (or $1) tier sequentially; print one line per property.
 tier=${1:-quick}
-cd /verif
+cd "$(dirname "$0")"
 for i in $(seq -w 1 20); do
   p=C$i
   s=$(date +%s.%N)
